@@ -552,8 +552,6 @@ def op_line(sess, op, r, step, raised):
         ln = 'M[%d].S.foo.formula = "lambda i: i * %d"; M[%d].S.foo[1] = 99; M[%d].S.k = %d; M[%d].S.foo(3)' % (i, K2, i, i, K2 * 10, i)
     else:
         ln = ('M[%d] = mx.new_space("Z%d").model' % (r.n, step)) if r.current is None else 'mx.new_space("Z%d")' % step
-    if raised:
-        return "try: " + ln.split(";")[0] + "\nexcept Exception as e: print('  refused:', type(e).__name__, e)"
     return ln
 
 
@@ -564,6 +562,9 @@ warnings.simplefilter("ignore")
 tmp = tempfile.mkdtemp(); bad = []; M = {}; closed = set()
 %s
 %s
+def run(code):                # one operation of the history; a refusal is reported, not fatal
+    try: exec(code, globals()); return True
+    except Exception as e: print("  refused: %%s -> %%s: %%s" %% (code, type(e).__name__, e)); return False
 def check(step, touched):
     reg = mx.get_models()
     for k, v in reg.items():
@@ -589,11 +590,9 @@ try:
     for n, ln in enumerate(lines, 1):
         L.append("    S0 = {i: snap(m) for i, m in M.items() if i not in closed}; names0 = {i: m.name for i, m in M.items() if i not in closed}; before = set(M)")
         if last_must_succeed and n == len(lines):
-            L.append("    try: " + ln.split("\n")[0][len("try: "):])
-            L.append("    except Exception as e: bad.append('refused: %s: %s' % (type(e).__name__, e))")
+            L.append("    if not run(%r): bad.append('step %d: modelx refused an operation that must succeed')" % (ln, n))
         else:
-            for sub in ln.split("\n"):
-                L.append("    " + sub)
+            L.append("    run(%r)" % ln)
         L.append("    touched = set(M) - before")
         if ".S.foo.formula" in ln:
             i = int(ln.split("]")[0].split("[")[1])
@@ -607,7 +606,7 @@ try:
         if "build(M[" in ln:
             i = int(ln.split("]")[0].split("[")[1])
             L.append("    Kf[%d] = %d" % (i, 2 + i))
-        elif "mx.read_model(" in ln and not ln.startswith("try"):
+        elif "mx.read_model(" in ln:
             i = int(ln.split("]")[0].split("[")[1])
             L.append("    Kf[%d] = 7" % i)
         L.append("    check(%d, touched)" % n)
@@ -770,6 +769,9 @@ warnings.simplefilter("ignore")
 tmp = tempfile.mkdtemp(); bad = []
 def shared_func(i):
     return i * 2
+def run(code):                # one edit of the history; a refusal is reported, not fatal
+    try: exec(code, globals()); return True
+    except Exception as e: print("  refused: %%s -> %%s: %%s" %% (code, type(e).__name__, e)); return False
 %s
 %s
 try:
@@ -811,7 +813,7 @@ def run_iso_history(setup, hist, saved, tmp):
         except Exception as e:
             res["fail"] = {"tags": ["unexpected-exception"] + feats,
                            "what": "step %d %s: %s: %s" % (step, code, type(e).__name__, e),
-                           "script": iso_script(setup, lines, None, models, st), "case": (setup,) + tuple(hist[:step])}
+                           "script": iso_script(setup, lines, None, models, st, must=True), "case": (setup,) + tuple(hist[:step])}
             return res
         edit_apply(kind, t, other, st, step, setup)
         for m in others:
@@ -854,22 +856,22 @@ def run_iso_history(setup, hist, saved, tmp):
     return res
 
 
-def iso_script(setup, lines, changed, models, st):
+def iso_script(setup, lines, changed, models, st, must=False):
+    """Replay of an isolation history; `changed`: the model whose snapshot is compared across the last edit."""
     L = [ISO_HEAD]
     for ln in SETUP_TXT[setup].split("\n"):
         L.append("    " + ln)
     for ln in lines[:-1]:
-        L.append("    " + ln)
+        L.append("    run(%r)" % ln)
     if changed is not None:
         L.append("    before = snap(%s)" % changed)
         L.append("    before_defs = snap(%s, False)" % changed)
-    L.append("    try:")
-    for sub in lines[-1].split("; "):
-        L.append("        " + sub)
-    L.append("    except Exception as e: bad.append('refused: %s: %s' % (type(e).__name__, e))")
+    if must:
+        L.append("    if not run(%r): bad.append('modelx refused an operation that must succeed')" % lines[-1])
+    else:
+        L.append("    run(%r)" % lines[-1])
     if changed is not None:
-        holds = setup == "xref" and changed == "X"
-        if holds:
+        if setup == "xref" and changed == "X":
             L.append("    if snap(%s, False) != before_defs: bad.append('definitions of %s changed')" % (changed, changed))
         else:
             L.append("    if snap(%s) != before: bad.append('%s changed')" % (changed, changed))
@@ -967,13 +969,18 @@ def run(res, tier, seed):
     iso = list(iso_histories(idepth))
     n = max(1, len(iso) // (nproc * 8))
     iso_tasks = [("iso", iso[i:i + n], deadline) for i in range(0, len(iso), n)]
+    iso_tasks = [iso_tasks[j] for i in range(8) for j in range(i, len(iso_tasks), 8)]     # spread the set-ups
     r0 = Reg(); r0.apply(("new", "A"))
     def reg_tasks_for(depth):
-        ts = []
+        by1 = []
         for op1 in r0.enabled():
             r1 = r0.copy(); r1.apply(op1)
-            for op2 in r1.enabled():
-                ts.append(("reg", (depth, [op1, op2]), deadline))
+            by1.append([("reg", (depth, [op1, op2]), deadline) for op2 in r1.enabled()])
+        ts = []                                 # interleaved: an unfinished run has touched every first operation
+        while any(by1):
+            for l in by1:
+                if l:
+                    ts.append(l.pop(0))
         return ts
     if quick:
         groups = [("isolation histories (length <= %d)" % idepth, iso_tasks),
